@@ -13,10 +13,10 @@ func init() {
 		ID: "C05", NeedCG: true,
 		Meta: propMeta{Level: "other", Assumptions: commonAssumptions,
 			Explanation: "Decides: C05.trim (in core.addSelfEvent each pool is handed to NewEvent as loaded, trimmed by exactly the length captured before the insertion and only on the path where the insertion returned nil; the signature pool removes exactly the slice handed over), " +
-				"C05.writers (only addTransactions / addInternalTransaction append to the pools, only addSelfEvent trims them), C05.copy (InmemProxy.SubmitTx queues a fresh copy, never the caller's slice), " +
+				"C05.writers (only addTransactions / addInternalTransaction append to the pools, only addSelfEvent trims them), C05.resubmit (the socket client used by applications to submit transactions never re-sends a request it merely stopped waiting for: no timer-bounded wait in its retry loop — a slow node would queue both copies), C05.copy (InmemProxy.SubmitTx queues a fresh copy, never the caller's slice), " +
 				"C05.lock (every call site of a pool writer or core mutator reachable from a concurrent root executes with Node.coreLock held, directly or because every caller holds it), " +
 				"C05.once (shared with C02.once: a committed round is never processed again, so its transactions are not committed a second time). NOT decided: exactly-once across the network, byte identity from submission to block (properties of histories)."},
-		Rules: []ruleFunc{c05trim, c05writers, c05copy, c05lock, func(p *Prog, r *Report) { onceRule(p, r, "C05.once") }},
+		Rules: []ruleFunc{c05trim, c05writers, c05copy, c05lock, func(p *Prog, r *Report) { onceRule(p, r, "C05.once") }, c05resubmit},
 	})
 }
 
@@ -230,8 +230,9 @@ func c05writers(p *Prog, r *Report) {
 	}
 }
 
-func c05copy(p *Prog, r *Report) {
-	const rule = "C05.copy"
+func c05copy(p *Prog, r *Report) { submitCopyRule(p, r, "C05.copy") }
+
+func submitCopyRule(p *Prog, r *Report, rule string) {
 	r.Rule(rule, 1, "InmemProxy.SubmitTx sends a slice made in the function and filled by copy(_, tx), never the parameter")
 	fn := p.Func("src/proxy/inmem", "InmemProxy", "SubmitTx")
 	if fn == nil {
@@ -452,4 +453,46 @@ func c05lock(p *Prog, r *Report) {
 			}
 		}
 	}
+}
+
+// C05.resubmit: a transaction handed to the socket proxy is sent to the node once per attempt that
+// is KNOWN to have failed. The client may reconnect and send again after the rpc layer reported an
+// error, but it must not abandon a request that is still in flight (select on a timer) and send it
+// again: the node is alive, merely slow (e.g. the core lock is held by a long sync), both copies are
+// queued and the transaction is committed twice.
+func c05resubmit(p *Prog, r *Report) {
+	const rule = "C05.resubmit"
+	r.Rule(rule, 1, "SocketBabbleProxyClient.call never re-sends a request it merely stopped waiting for (no timer-bounded wait inside the retry loop)")
+	fn := p.Func(PBAB, "SocketBabbleProxyClient", "call")
+	if fn == nil {
+		r.Anchor(rule, "SocketBabbleProxyClient.call")
+		return
+	}
+	loops := naturalLoops(fn)
+	bad := ""
+	for _, b := range fn.Blocks {
+		for _, in := range b.Instrs {
+			sel, ok := in.(*ssa.Select)
+			if !ok || innermostLoop(loops, b) == nil {
+				continue
+			}
+			for _, st := range sel.States {
+				if st.Dir != types.RecvOnly {
+					continue
+				}
+				if dependsOn(st.Chan, func(x ssa.Value) bool {
+					c, isCall := x.(*ssa.Call)
+					if !isCall {
+						return false
+					}
+					f := calleeFunc(c.Common())
+					return f != nil && f.Pkg() != nil && f.Pkg().Path() == "time" && (f.Name() == "After" || f.Name() == "NewTimer" || f.Name() == "Tick")
+				}) {
+					bad = p.ipos(sel)
+				}
+			}
+		}
+	}
+	r.Check(bad == "", rule, "SocketBabbleProxyClient.call:no-timeout-resend", p.pos(fn.Pos()), fnName(fn), "a request is re-sent only after the rpc layer reported its failure",
+		"the submission client stops waiting for an in-flight request after a timer ("+bad+") inside its retry loop and sends it again: a slow node receives the transaction twice and commits it twice")
 }
